@@ -29,8 +29,9 @@ RULE = ("random ADMGs with 2-5 nodes x pairs (outcome conjunction, non-empty con
         "is counterfactual and IDC* got past line 1 (answered, returned Zero, or refused as unidentifiable).")
 ASSUMPTIONS = [
     "soundness (value = P(outcomes, conditions) / P(conditions)) and zero-soundness have NO theorem; IDC* inherits the wrong "
-    "answers of ID* (F10) and adds its own (the exchanged condition always becomes the unstarred subscript; F11: "
-    "Expression.conditional also normalises over subscripts and bound variables): decided by correspondence + exact "
+    "answers of ID* (F10) and adds its own (the line-4 exchange ignores the remaining conditions; what remains of F11: "
+    "Expression.conditional also normalises over the variables bound by inner sums of the ID* estimand -- the subscript part of "
+    "F11 is repaired by `fix:` f502ca2): decided by correspondence + exact "
     "evaluation on 8 sampled functional SCMs per case; the known wrong answers are listed in known_findings.jsonl",
     "reading of an estimand as in C07 (free outcome variables take the values of the joint event; both subscript conventions "
     "are tried); models in which the conditions have probability 0 or a denominator of the estimand is 0 are skipped",
@@ -49,8 +50,10 @@ ASSUMPTIONS = [
     "a wrong value / wrong Zero is classified by the FIRST step of IDC*'s own chain of claims that an independent exact "
     "evaluation shows to be broken on that input: 'reassociation' (get_new_outcomes_and_conditions changes "
     "P(outcomes | conditions)), 'exchange' (the line-4 exchange changes it), 'inherited' (the final id_star call is wrong by "
-    "itself: keyed by the C07 finding it shrinks to), 'F11' (numerator right, Expression.conditional normalises over bound / "
-    "subscript-only names; confirmed by evaluating the repaired fraction); these classes have ONE coarse finding key each, "
+    "itself: keyed by the C07 finding it shrinks to), 'F11' (numerator right, every name Expression.conditional wrongly "
+    "normalises over is BOUND by a sum inside the numerator; confirmed by evaluating the repaired fraction; a wrong "
+    "normaliser that contains a subscript-only name is the repaired part of F11 and is reported as the unlisted kind "
+    "'normalisation:subscript', i.e. as a VIOLATION); these classes have ONE coarse finding key each, "
     "because the broken step is identified on every such input, not inferred from the input's shape; any other failure "
     "(including every crash) is keyed by (failure kind, graph + outcomes + conditions of the SHRUNK failing input up to "
     "renaming). A new defect that only ever co-occurs with an earlier broken step on the same input would be masked",
@@ -273,21 +276,43 @@ def _explain(case, strategy, n_models):
     return None, None
 
 
-def _f11_repaired(case, expr):
-    """if `expr` is `num / Sum[R](num)` (what Expression.conditional builds): the candidate repairs of F11 — the same fraction
-    normalised over the FREE outcome variables of `num` among R only (no sum over variables bound inside `num` or occurring
-    only as subscripts).  A summed outcome variable X either also drives the same-named unstarred subscripts (they were
-    made from the pillow node X by line 6) or leaves them alone (they are literal values of the original event): both
-    readings are offered per variable, since the estimand does not tell them apart (F10/M3)."""
+def _bound_names(e):
+    """names in the range of some Sum inside `e`"""
+    out = set()
+    if isinstance(e, str):
+        return out
+    if e[0] in ("sum", "osum"):
+        out |= {int(v[1]) for v in e[1]} | _bound_names(e[2])
+    elif e[0] == "prod":
+        for y in e[1:]:
+            out |= _bound_names(y)
+    elif e[0] == "frac":
+        out |= _bound_names(e[1]) | _bound_names(e[2])
+    return out
+
+
+def _normaliser_ranges(expr):
+    """(num, R) when `expr` is `num / Sum[R](num)` or `num / num` (what Expression.conditional builds), else None"""
     if isinstance(expr, str) or expr[0] != "frac":
-        return []
+        return None
     num, den = expr[1], expr[2]
     if den == num:
-        ranges = []
-    elif den[0] == "sum" and den[2] == num:
-        ranges = [int(v[1]) for v in den[1]]
-    else:
+        return num, []
+    if not isinstance(den, str) and den[0] == "sum" and den[2] == num:
+        return num, [int(v[1]) for v in den[1]]
+    return None
+
+
+def _f11_repaired(case, expr):
+    """if `expr` is `num / Sum[R](num)` (what Expression.conditional builds): the candidate repairs of F11 — the same fraction
+    normalised over the FREE outcome variables of `num` among R only (no sum over variables bound inside `num`).
+    A summed outcome variable X either also drives the same-named unstarred subscripts (they were
+    made from the pillow node X by line 6) or leaves them alone (they are literal values of the original event): both
+    readings are offered per variable, since the estimand does not tell them apart (F10/M3)."""
+    nr = _normaliser_ranges(expr)
+    if nr is None:
         return []
+    num, ranges = nr
     free = set()
     for fn in S.free_names(num):
         free |= fn
@@ -307,10 +332,25 @@ def _f11_repaired(case, expr):
     return out
 
 
+def _extra_is_bound_only(expr):
+    """every name the normaliser sums over although it is not a free outcome variable of the numerator is bound by a Sum
+    inside the numerator (what remains of F11); False when some such name occurs in subscripts only (repaired by
+    `fix:` f502ca2: must not happen any more)"""
+    nr = _normaliser_ranges(expr)
+    if nr is None:
+        return False
+    num, ranges = nr
+    free = set()
+    for fn in S.free_names(num):
+        free |= fn
+    return all(n in _bound_names(num) for n in ranges if n not in free)
+
+
 def _judge(case, res, exc, n_models, strategy=None):
     """(failure message, kind) for one answer of the real code.  Wrong values / wrong zeros are classified by what explains
     them: 'inherited' (the inner ID* call is already wrong: a C07 finding), 'F11' (the numerator is right, only the
-    normalisation by Expression.conditional is wrong), or plain 'value' / 'zero'."""
+    normalisation by Expression.conditional is wrong: it sums over variables bound inside the numerator), or plain
+    'value' / 'zero'."""
     g = {"nodes": G.all_nodes(case["g"]), "di": case["g"]["di"], "bi": case["g"]["bi"]}
     jt = joint(case)
     cond = K.sort_event(case["conditions"])
@@ -343,12 +383,13 @@ def _judge(case, res, exc, n_models, strategy=None):
     if kind == "value":
         reps = [r for r in _f11_repaired(case, expr) if r != expr]
         if any(S.check_estimand(g, jt, rep, case.get("seed", 0), n_models=n_models, cond=cond) is None for rep in reps):
-            if expr[0] == "frac" and not isinstance(expr[1], str) and expr[1][0] == "P":
-                # F11 lives in Expression.conditional (sums / products); for a single term Probability.conditional is used,
-                # which leaves the intervention subscripts alone: a wrong normalisation of a single term is NOT F11
-                return msg + (" [numerator right, a single P[...](...) term; its normalisation also sums over names that occur "
-                              "only as subscripts -- Probability.conditional does not do that]"), "normalisation:single-term"
-            return msg + " [numerator right; only the normalisation of Expression.conditional is wrong: F11]", "F11"
+            if not _extra_is_bound_only(expr):
+                # the subscript part of F11 (repaired by `fix:` f502ca2): neither conditional overload may sum over a name
+                # that occurs in subscripts only; NOT a listed finding, so this is reported as a VIOLATION
+                return msg + (" [numerator right; the normalisation also sums over names that occur only as subscripts -- "
+                              "both conditional overloads skip Intervention objects since the fix]"), "normalisation:subscript"
+            return msg + (" [numerator right; only the normalisation of Expression.conditional is wrong, it also sums over "
+                          "variables bound inside the numerator: F11 (bound-range part)]"), "F11"
     if kind == "value" and not isinstance(expr, str) and expr[0] == "frac":
         shared = {int(var[1]) for var, _ in case["outcomes"]} & {int(var[1]) for var, _ in case["conditions"]}
         if shared and S.check_estimand(g, jt, expr[1], case.get("seed", 0), n_models=n_models) is None:
@@ -407,13 +448,13 @@ def _evaluate(case, n_models=8, with_unpatched=True, all_verdicts=False):
             "verdicts": [[json.dumps(a)[:160], list(s_) if s_ is not None else None, k_] for a, s_, k_ in verdicts]}
 
 
-COARSE = ("F11", "normalisation:single-term", "inherited", "reassociation", "exchange:polarity", "exchange:conditions", "exchange:separation",
+COARSE = ("F11", "normalisation:subscript", "inherited", "reassociation", "exchange:polarity", "exchange:conditions", "exchange:separation",
           "conditional:shared-base")
 
 
 def _coarse_key(case, r):
     """finding key of the failures that are explained by an identified broken step / another listed defect"""
-    if r["kind"] in ("F11", "normalisation:single-term", "reassociation", "conditional:shared-base") or \
+    if r["kind"] in ("F11", "normalisation:subscript", "reassociation", "conditional:shared-base") or \
             r["kind"].startswith("exchange:"):
         return json.dumps([r["kind"]])
     if r["kind"] == "inherited":
@@ -520,11 +561,11 @@ MANIFEST = {
              "effectiveness, before doing anything else; the model is defined for every fuel, an answer reached with some fuel "
              "is not changed by more fuel; every leaf of a returned estimand is a single-world interventional term (C06 part); "
              "Zero from line 3 (inconsistent joint event) is sound in every compatible functional SCM (by C18's cg_prob); the final division is fully modelled. Soundness of the returned value and of Zero from inside ID* has NO theorem (it inherits F10 from "
-             "ID* and adds F11 and the unstarred exchange of conditions); the check decides it by correspondence with the real "
+             "ID* and adds the bound-range part of F11 and an exchange step that ignores the other conditions); the check decides it by correspondence with the real "
              "code plus exact evaluation of P(outcomes, conditions)/P(conditions) on sampled functional SCMs; every wrong answer is "
              "attributed to the first step of IDC*'s chain of claims that exact evaluation shows to be broken (reassociation, "
              "exchange:conditions, exchange:separation, inherited from ID*, F11) and those steps are listed as open findings; three "
-             "small defects were fixed (2281796, 618b4aa, b9b2278)."),
+             "small defects were fixed in idc_star.py (0cb6c69, 8a76512, 9f8a537) and the subscript part of F11 in dsl.py (f502ca2)."),
     "note": ("Trusted: Lean kernel + standard axioms; hand-written models (ID*, counterfactual graph, d-separation of the sep "
              "family, Expression.conditional) tied to the code by differential testing under all set-iteration orders; the "
              "reading convention of estimands; sampled models (8 per case, P(conditions) > 0)."),
